@@ -144,6 +144,7 @@ type Exec struct {
 	notes         map[string]bool
 	inInit        int
 	newDecisions  int64
+	domainPruned  int64
 	wantWitness   func() bool
 	initPkg       []*ssa.Package
 	curFrame      *frame
@@ -154,6 +155,7 @@ type Exec struct {
 	pureDepth     int
 	pureFork      int
 	onceDone      map[*Value]bool
+	domains       map[*Term][]uint64 // finite over-approximations of single variables' feasible values
 	ipdomCache    map[*ssa.Function]map[*ssa.BasicBlock]*ssa.BasicBlock
 }
 
@@ -171,6 +173,80 @@ func (e *Exec) note(s string) { e.notes[s] = true }
 func (e *Exec) assertPC(c *Term) {
 	e.sol.Assert(c)
 	e.setKnown(c, true)
+	e.learnDomain(c)
+}
+
+const maxDomain = 64
+
+// learnDomain: a path constraint that mentions exactly one variable of at most 16 bits
+// narrows that variable's finite domain (an over-approximation of its feasible values, used
+// only to prune branches all of whose domain values agree; anything mixed goes to the solver).
+func (e *Exec) learnDomain(c *Term) {
+	v := c.soleVar()
+	if v == nil || v.width == 0 || v.width > 16 {
+		return
+	}
+	dom, have := e.domains[v]
+	memo := map[*Term]uint64{}
+	env := map[string]uint64{}
+	var nd []uint64
+	if have {
+		for _, x := range dom {
+			env[v.name] = x
+			for k := range memo {
+				delete(memo, k)
+			}
+			if c.Eval(env, memo) != 0 {
+				nd = append(nd, x)
+			}
+		}
+	} else {
+		if v.width > 8 {
+			return
+		}
+		for x := uint64(0); x < 1<<uint(v.width); x++ {
+			env[v.name] = x
+			for k := range memo {
+				delete(memo, k)
+			}
+			if c.Eval(env, memo) != 0 {
+				nd = append(nd, x)
+				if len(nd) > maxDomain {
+					return
+				}
+			}
+		}
+	}
+	e.domains[v] = nd
+}
+
+// domainDecides: if c depends on one variable with a known finite domain and evaluates the
+// same for every value of it, the branch is forced.
+func (e *Exec) domainDecides(c *Term) (bool, bool) {
+	v := c.soleVar()
+	if v == nil {
+		return false, false
+	}
+	dom, ok := e.domains[v]
+	if !ok || len(dom) == 0 {
+		return false, false
+	}
+	memo := map[*Term]uint64{}
+	env := map[string]uint64{}
+	first := uint64(0)
+	for i, x := range dom {
+		env[v.name] = x
+		for k := range memo {
+			delete(memo, k)
+		}
+		r := c.Eval(env, memo)
+		if i == 0 {
+			first = r
+		} else if r != first {
+			return false, false
+		}
+	}
+	return first != 0, true
 }
 
 func (e *Exec) setKnown(c *Term, v bool) {
@@ -244,6 +320,11 @@ func (e *Exec) decide(c *Term) bool {
 		return c.val == 1
 	}
 	if v, ok := e.lookupKnown(c); ok {
+		return v
+	}
+	if v, ok := e.domainDecides(c); ok {
+		e.setKnown(c, v)
+		e.domainPruned++
 		return v
 	}
 	if e.pureDepth > 0 {
@@ -541,6 +622,7 @@ func (e *Exec) runPath(fn *ssa.Function, prefix []int64) (res *PathResult) {
 	e.pooled = nil
 	e.pureDepth, e.pureFork = 0, 0
 	e.onceDone = nil
+	e.domains = map[*Term][]uint64{}
 	res = e.cur
 	e.sol.Push()
 	defer func() {
